@@ -72,12 +72,26 @@ RAISERS = [
     ("try-reraise", "(try (/ 1 0) (finally (setv zq_q 2)))", "ZeroDivisionError"),
     ("with-body", "(with [zq_f (open \"/dev/null\")]\n    (/ 1 0))", "ZeroDivisionError"),
     ("chained-compare", "(< 1 (/ 1 0) 3)", "ZeroDivisionError"),
+    # user-defined reader macros: the raising form is synthesised by the reader macro, several levels below what it returns
+    ("reader-macro", "#zq-ratio 1 0", "ZeroDivisionError"),
+    ("reader-macro-multiline", "#zq-ratio 1\n      0", "ZeroDivisionError"),
+    ("reader-macro-deep", "#zq-deep \"s\"", "TypeError"),
+    ("quote-sugar", "(zq_id '(a b) (/ 1 0))", "ZeroDivisionError"),
 ]
 
 PRELUDE = """(defmacro zq-boom [] '(/ 1 0))
 (defmacro zq-wrap [x] `(do ~x))
 (defmacro zq-plus [x] `(let [t# 1] (+ t# ~x)))
 (defmacro zq-deffn [] '(defn zq-made [] (/ 1 0)))
+(defreader zq-ratio
+  (setv a (.parse-one-form &reader)
+        b (.parse-one-form &reader))
+  `(do
+     (setv zq-last-ratio (/ ~a ~b))
+     zq-last-ratio))
+(defreader zq-deep
+  (setv a (.parse-one-form &reader))
+  `(if True (do (setv zq-deep-v [(+ 1 (get [~a] 0))]) zq-deep-v) None))
 """
 
 # contexts: text with the hole «H»; the raising form is evaluated when the program runs
@@ -191,8 +205,20 @@ def layout(rng, ctx_text, raiser_text, n_before, n_after):
     return src, (start_line, end_line)
 
 
-def run_program(hy, src, filename):
+def recording(hy, lazy, out):
+    """the forms of a Lazy, recorded while the compiler consumes them (reader macros defined by earlier forms are in effect)"""
+    def gen():
+        for form in lazy:
+            out.append(form)
+            yield form
+    rec = hy.models.Lazy(gen())
+    rec.source, rec.filename, rec.reader = lazy.source, lazy.filename, lazy.reader
+    return rec
+
+
+def run_program(hy, src, filename, forms=None):
     """-> ('raised', exception class name, innermost lineno in `filename`, all linenos) | ('no-raise',) | ('compile-error', cls, msg)"""
+    forms = [] if forms is None else forms
     mod = types.ModuleType("zq_c17mod")
     sys.modules["zq_c17mod"] = mod
 
@@ -206,7 +232,7 @@ def run_program(hy, src, filename):
         with warnings.catch_warnings():
             warnings.simplefilter("ignore")
             try:
-                tree = hy.compiler.hy_compile(hy.read_many(src, filename=filename), mod, source=src, filename=filename)
+                tree = hy.compiler.hy_compile(recording(hy, hy.read_many(src, filename=filename), forms), mod, source=src, filename=filename)
                 code = compile(tree, filename, "exec")
             except Exception as e:
                 return ("compile-error", type(e).__name__, str(e)[:300])
@@ -222,7 +248,7 @@ def run_program(hy, src, filename):
         sys.modules.pop("zq_c17mod", None)
 
 
-def reader_span(hy, src, span, raiser_text):
+def reader_span(hy, src, span, raiser_text, forms=None):
     """the span of the raising form according to the reader: the model whose start line is ours and whose text matches"""
     first = raiser_text.split("\n")[0]
     best = None
@@ -238,7 +264,7 @@ def reader_span(hy, src, span, raiser_text):
             for c in m:
                 walk(c)
     try:
-        for form in hy.read_many(src):
+        for form in (forms if forms is not None else hy.read_many(src)):
             walk(form)
     except Exception:
         return None
@@ -272,13 +298,14 @@ def traceback_oracle(chk, hy, thorough):
 
 def judge(chk, hy, src, span, rtext, exc, cid, rid, k):
     filename = "<c17-%d>" % k
-    rs = reader_span(hy, src, span, rtext)
+    forms = []
+    res = run_program(hy, src, filename, forms)
+    rs = reader_span(hy, src, span, rtext, forms)
     if rs is None:
         chk.count("filtered:program-not-readable-or-form-not-found")
         return
     if rs != span:
         chk.disagree("harness layout vs reader span of the raising form", src, span, rs)
-    res = run_program(hy, src, filename)
     chk.count("context:" + cid)
     chk.count("raiser:" + rid)
     chk.count("outcome:" + res[0])
